@@ -339,6 +339,24 @@ def object_shapes(nm: Namer) -> Dict[str, Callable[[T, Ctx], Optional[T]]]:
             extra_src="    @validator\n    def _chk(self):\n        _ = (self.a_b, self.c)",
         )
 
+    def class_validator_inherited(x, c):
+        # the (never failing) validator of the base reads its fields through a method that the subclass overrides to read one
+        # more, required, field: for the subclass the validator depends on that field too
+        base = Obj(
+            "dataclass",
+            nm("B"),
+            (F("a", x),),
+            extra_src="    def _total(self):\n        return self.a\n    @validator\n    def _chk(self):\n        _ = self._total()",
+        )
+        return Obj(
+            "dataclass",
+            nm("O"),
+            (F("c", INT),),
+            bases=(base.name,),
+            base_specs=(base,),
+            extra_src="    def _total(self):\n        return (self.a, self.c)",
+        )
+
     def ordered(x, c):
         # serialized in an order which is not the declaration order
         return Obj("dataclass", nm("O"), (F("a", x), F("b", INT, default="0", has_default=True, default_value=0, order="order(-1)")))
